@@ -63,89 +63,89 @@ def _dir_ext_cases():
 
 _FP_DR = dict(_ENV, destroy="data_reader_destroy", copy="data_reader_copy")
 HARNESSES = [
-    dict(name="super", file="super.c", label="proved", timeout=170,
+    dict(name="super", file="super.c", label="proved", timeout=600,
          fp=dict(_ENV), unwindset=["sqfs_super_read.0:21", "memcmp.0:97", "verif_nd_bytes.0:97"]),
-    dict(name="meta_seek", file="meta_seek.c", label="proved", timeout=170,
+    dict(name="meta_seek", file="meta_seek.c", label="proved", timeout=600,
          fp=_FP_MR, flags=_UF, unwindset=["harness.0:5"]),
-    dict(name="meta_read", file="meta_read.c", label="proved", timeout=170,
+    dict(name="meta_read", file="meta_read.c", label="proved", timeout=600,
          fp=_FP_MR, flags=_UF, loops=["sqfs_meta_reader_read"], loop_tables=["C10"],
          defines={"MR_CAP": 1048576}),
     # one run per inode type (the split covers all 14 types plus two
     # non-types: proved); conversion check stays on: payload sizes are stored
     # in 32 bit fields
-    dict(name="read_inode", file="read_inode.c", label="proved", timeout=170,
+    dict(name="read_inode", file="read_inode.c", label="proved", timeout=600,
          malloc_fail=True, flags=_UF, cases=_inode_cases()),
-    dict(name="read_inode_file", file="read_inode.c", label="proved", timeout=170,
+    dict(name="read_inode_file", file="read_inode.c", label="proved", timeout=600,
          malloc_fail=True, flags=_UF, loops=["read_inode_file"], defines={"ITYPE": 2, "INO_LOOP_HAVOC": 1}),
-    dict(name="read_inode_file_ext", file="read_inode.c", label="proved", timeout=170,
+    dict(name="read_inode_file_ext", file="read_inode.c", label="proved", timeout=600,
          malloc_fail=True, flags=_UF, loops=["read_inode_file_ext"], defines={"ITYPE": 9, "INO_LOOP_HAVOC": 1}),
     dict(name="read_inode_dir_ext", file="read_inode.c",
-         label="bounded(dir index entries <= 1)", timeout=170,
+         label="bounded(dir index entries <= 1)", timeout=600,
          malloc_fail=True, flags=_UF, cases=_dir_ext_cases()),
-    dict(name="readdir", file="readdir.c", label="proved", timeout=170,
+    dict(name="readdir", file="readdir.c", label="proved", timeout=600,
          nochecks=["--conversion-check"], malloc_fail=True, flags=_UF),
-    dict(name="readdir_init", file="readdir_init.c", label="proved", timeout=170,
+    dict(name="readdir_init", file="readdir_init.c", label="proved", timeout=600,
          unwindset=["verif_nd_bytes.0:49"]),
-    dict(name="read_table", file="read_table.c", label="proved", timeout=170,
+    dict(name="read_table", file="read_table.c", label="proved", timeout=600,
          fp=dict(_ENV, destroy="rt_reader_destroy", copy="rt_reader_destroy"),
          malloc_fail=True, flags=_UF, loops=["sqfs_read_table"],
          defines={"RT_MAX": "0x1000000000"}),
-    dict(name="id_table_read", file="id_table_read.c", label="proved", timeout=170,
+    dict(name="id_table_read", file="id_table_read.c", label="proved", timeout=600,
          fp=dict(_ENV, destroy="id_table_destroy", copy="id_table_copy"),
          malloc_fail=True, flags=_UF, loops=["sqfs_id_table_read"]),
-    dict(name="frag_table_read", file="frag_table_read.c", label="proved", timeout=170,
+    dict(name="frag_table_read", file="frag_table_read.c", label="proved", timeout=600,
          fp=dict(_ENV, destroy="frag_table_destroy", copy="frag_table_copy"),
          malloc_fail=True, flags=_UF),
-    dict(name="dr_stream", file="dr_stream.c", label="proved", timeout=170,
+    dict(name="dr_stream", file="dr_stream.c", label="proved", timeout=600,
          fp=_FP_DR, malloc_fail=True, flags=_UF, defines={"DS_MAXBLK": "0x3FFFFFFF"}),
-    dict(name="dr_fragment", file="dr_fragment.c", label="proved", timeout=170,
+    dict(name="dr_fragment", file="dr_fragment.c", label="proved", timeout=600,
          fp=_FP_DR, malloc_fail=True, flags=_UF),
-    dict(name="dr_read", file="dr_read.c", label="bounded(block words <= 3)", timeout=170,
+    dict(name="dr_read", file="dr_read.c", label="bounded(block words <= 3)", timeout=600,
          fp=_FP_DR, malloc_fail=True, flags=_UF,
          cases=[dict(id="nblk%d" % n, defines={"NBLK": n}, unwind=n + 2,
                      tier="quick" if n <= 1 else "thorough", timeout=600) for n in range(0, 4)]),
     # a loop contract on the walk over the preceding block words makes
     # goto-instrument 6.11 fail ("Recursive call to 'get_block' during
     # inlining"), so the index is bounded and the loop unwound
-    dict(name="dr_getblock", file="dr_getblock.c", label="bounded(index <= 3)", timeout=170,
+    dict(name="dr_getblock", file="dr_getblock.c", label="bounded(index <= 3)", timeout=600,
          fp=_FP_DR, malloc_fail=True, flags=_UF, defines={"GB_MAXIDX": 3},
          unwindset=["sqfs_data_reader_get_block.0:5"]),
-    dict(name="dr_create_stream", file="dr_create_stream.c", label="proved", timeout=170,
+    dict(name="dr_create_stream", file="dr_create_stream.c", label="proved", timeout=600,
          fp=dict(_FP_DR, **{"sqfs_drop:destroy": "data_reader_destroy"}),
          malloc_fail=True, flags=_UF, unwindset=["strlen.0:6"]),
-    dict(name="xattr_value", file="xattr_value.c", label="proved", timeout=170,
+    dict(name="xattr_value", file="xattr_value.c", label="proved", timeout=600,
          fp={"read_at": "stub_read_at", "destroy": "xattr_reader_destroy",
              "copy": "xattr_reader_copy"},
          malloc_fail=True, flags=_UF),
-    dict(name="xattr_desc", file="xattr_desc.c", label="proved", timeout=170,
+    dict(name="xattr_desc", file="xattr_desc.c", label="proved", timeout=600,
          fp={"read_at": "stub_read_at", "destroy": "xattr_reader_destroy",
              "copy": "xattr_reader_copy"},
          unwindset=["harness.0:4", "harness.1:9", "verif_nd_bytes.0:17", "memset.0:17"]),
     dict(name="xattr_load", file="xattr_load.c", label="bounded(xattr id table blocks <= 2)",
-         timeout=170, malloc_fail=True,
+         timeout=600, malloc_fail=True,
          fp={"read_at": "stub_read_at", "do_block": "stub_do_block",
              "destroy": "xl_reader_destroy", "copy": "xattr_reader_copy"},
          cases=[dict(id="idblk%d" % k, defines={"NIDBLK": k}, tier="quick",
                      unwindset=["sqfs_xattr_reader_load.0:%d" % (k + 1)]) for k in (0, 1, 2)]),
     # key size bounded (KV_KEYMAX) only for the strlen of the harness' own check;
     # the function itself sees the full 16 bit key size
-    dict(name="xattr_kv", file="xattr_kv.c", label="proved", timeout=170,
+    dict(name="xattr_kv", file="xattr_kv.c", label="proved", timeout=600,
          fp={"read_at": "stub_read_at", "destroy": "xattr_reader_destroy",
              "copy": "xattr_reader_copy"},
          nochecks=["--conversion-check"], malloc_fail=True, flags=_UF,
          unwindset=["strlen.0:12", "sqfs_get_xattr_prefix.0:4"]),
     # un-compress wrappers against assumed codec library contracts
-    dict(name="comp_zstd", file="comp_zstd.c", label="proved", timeout=170, flags=_UF),
-    dict(name="comp_lz4", file="comp_lz4.c", label="proved", timeout=170, flags=_UF),
-    dict(name="comp_xz", file="comp_xz.c", label="proved", timeout=170, flags=_UF),
-    dict(name="comp_gzip", file="comp_gzip.c", label="proved", timeout=170, flags=_UF),
-    dict(name="comp_lzma", file="comp_lzma.c", label="proved", timeout=170, flags=_UF),
+    dict(name="comp_zstd", file="comp_zstd.c", label="proved", timeout=600, flags=_UF),
+    dict(name="comp_lz4", file="comp_lz4.c", label="proved", timeout=600, flags=_UF),
+    dict(name="comp_xz", file="comp_xz.c", label="proved", timeout=600, flags=_UF),
+    dict(name="comp_gzip", file="comp_gzip.c", label="proved", timeout=600, flags=_UF),
+    dict(name="comp_lzma", file="comp_lzma.c", label="proved", timeout=600, flags=_UF),
     dict(name="own_parent", file="own_parent.c", label="bounded(ancestor chain <= 4)",
-         timeout=170,
+         timeout=600,
          cases=[dict(id="depth%d" % d, defines={"OP_DEPTH": d}, unwind=d + 2,
                      tier="quick") for d in (0, 1, 4)]),
     dict(name="fill_dir", file="fill_dir.c",
-         label="bounded(entries per directory <= 1, ancestor chain <= 2)", timeout=170,
+         label="bounded(entries per directory <= 1, ancestor chain <= 2)", timeout=600,
          pre_instrument_flags=["--replace-calls", "create_node:stub_create_node"],
          fp={"destroy": "fd_destroy", "copy": "fd_copy"}, native=False, unwind=5,
          # --pointer-overflow-check alone makes this harness run > 60 s (1.5 s
@@ -157,7 +157,7 @@ HARNESSES = [
 
     # --conversion-check off: `flags & ~SQFS_DIR_OPEN_ALL_FLAGS` converts the int
     # ~1 to unsigned on purpose (well defined)
-    dict(name="dirrd", file="dirrd.c", label="proved", timeout=170, malloc_fail=True,
+    dict(name="dirrd", file="dirrd.c", label="proved", timeout=600, malloc_fail=True,
          nochecks=["--conversion-check"],
          fp={"read_at": "stub_read_at", "destroy": "dir_reader_destroy",
              "copy": "dir_reader_copy", "key_compare": "dcache_key_compare"},
@@ -167,7 +167,7 @@ HARNESSES = [
                 for k, n in ((1, "open_dir"), (2, "read"), (3, "get_inode"), (4, "resolve_inum"))]),
     dict(name="resolve_path", file="resolve_path.c",
          label="bounded(path <= 3 bytes, <= 2 entries per directory, names <= 3 bytes)",
-         timeout=170, malloc_fail=True, native=False,
+         timeout=600, malloc_fail=True, native=False,
          pre_instrument_flags=["--replace-calls", "sqfs_dir_reader_open_dir:stub_open_dir",
                                "--replace-calls", "sqfs_dir_reader_read:stub_dir_read",
                                "--replace-calls", "sqfs_dir_reader_get_inode:stub_get_inode",
@@ -176,13 +176,13 @@ HARNESSES = [
              "key_compare": "dcache_key_compare"},
          cases=[dict(id="plen%d" % n, defines={"PLEN": n}, unwind=n + 4, timeout=600,
                      tier="quick" if n <= 2 else "thorough") for n in range(0, 4)]),
-    dict(name="dir_iter", file="dir_iter.c", label="proved", timeout=170, malloc_fail=True,
+    dict(name="dir_iter", file="dir_iter.c", label="proved", timeout=600, malloc_fail=True,
          flags=_UF,
          fp={"read_at": "stub_read_at", "do_block": "stub_do_block",
              "destroy": ["di_obj_destroy", "it_destroy"], "copy": "di_obj_copy"},
          cases=[dict(id=n, defines={"FN": k}, tier="quick", unwind=6)
                 for k, n in ((1, "next"), (2, "read_link"), (3, "dispatch"), (4, "create"))]),
-    dict(name="inode_misc", file="inode_misc.c", timeout=170, malloc_fail=True, flags=_UF,
+    dict(name="inode_misc", file="inode_misc.c", timeout=600, malloc_fail=True, flags=_UF,
          label="bounded(dir index entries <= 2; name buffer 6 bytes)",
          fp={"read_at": "stub_read_at", "do_block": "stub_do_block"},
          cases=[dict(id="unpack_index%d" % n, defines={"FN": 1, "NENT": n},
